@@ -180,7 +180,7 @@ func newBackend(sim *core.Sim, spec *BackendSpec, reqs map[int]*reqState) (*back
 	b := &backend{spec: spec}
 	b.lis = bufconn.Listen(1 << 20)
 	b.srv = grpc.NewServer()
-	b.world = &World{sim: sim, reqs: reqs, tag: spec.Tag}
+	b.world = &World{sim: sim, reqs: reqs, tag: spec.Tag, serverMD: newServerMD()}
 	for _, svc := range spec.Services {
 		b.srv.RegisterService(b.world.serviceDesc(svc), b.world)
 	}
